@@ -1,0 +1,9 @@
+//go:build verif
+
+package avc
+
+// Property C07 (cbcs): the slice header size reported by the parser lies inside the NAL unit, and parsing does not
+// modify anything the caller can see.
+//@ func ParseSliceHeader
+//@   ensures[C07] result1 == nil ==> result0 != nil && 1 <= result0.Size && int(result0.Size) <= len(nalu)
+//@   assigns nothing
